@@ -293,7 +293,11 @@ class Ctx:
         if extra_cov:
             cov.update(extra_cov)
         # unlisted violations
-        unlisted = [v for v in self.violations]
+        unlisted, _seen = [], set()
+        for v in self.violations:
+            if v["replay"] not in _seen:
+                _seen.add(v["replay"])
+                unlisted.append(v)
         ev = {
             "property_id": self.prop,
             "tier": self.tier,
